@@ -60,6 +60,7 @@ def full_alphabet():
     evs += [["init", e, "public"] for e in H.INIT_ENTRIES + H.RELOAD_ENTRIES]
     evs += [["calc", c, "public"] for c in H.CALCS]
     evs += bare_table_events(True)
+    evs += [["ext", "ok"], ["ext", "fail"]]
     return evs
 
 
@@ -93,6 +94,7 @@ def reduced_alphabet():
     # the event-only calculators (printed tables, legacy entry points) are in the full alphabet only
     evs += [["calc", c, "public"] for c in H.CALCS if c not in H.EVENT_ONLY_CALCS[2:]]
     evs += bare_table_events(False)
+    evs += [["ext", "ok"], ["ext", "fail"]]
     return evs
 
 
